@@ -1438,3 +1438,87 @@ def replay_c11_bytes_decode(args):
             if got[0] != exp[0]:
                 bad.append((b.hex()[:16], b.hex()[96:104], got[:1], exp[:1]))
     return (len(bad) > 0), "c11_bytes_decode %s: %d mismatches %s" % (which, len(bad), str(bad[:3])[:300])
+
+
+def rfc_hkdf(salt, ikm, info, L):
+    import hmac, hashlib
+    prk = hmac.new(salt, ikm, hashlib.sha256).digest()
+    t, okm = b"", b""
+    i = 1
+    while len(okm) < L:
+        t = hmac.new(prk, t + info + bytes([i]), hashlib.sha256).digest()
+        okm += t
+        i += 1
+    return prk, okm[:L]
+
+
+def replay_c16_hkdf(args):
+    from py_ecc.bls.hash import hkdf_extract, hkdf_expand
+    bad = []
+    Ls = [0, 1, 31, 32, 33, 48, 64, 65, 255 * 32]
+    if args.get("L"):
+        Ls.insert(0, int(args["L"]))
+    for salt, ikm, info in ((b"", b"", b""), (b"salt", b"ikm", b"info"), (b"\x00" * 80, b"\xff" * 300, b"i" * 300)):
+        prk, _ = rfc_hkdf(salt, ikm, info, 0)
+        if bytes(hkdf_extract(salt, ikm)) != prk:
+            bad.append(("extract",))
+        for L in Ls:
+            try:
+                got = bytes(hkdf_expand(prk, info, L))
+            except Exception as e:
+                got = repr(e)
+            if got != rfc_hkdf(salt, ikm, info, L)[1]:
+                bad.append(("expand", L))
+    return (len(bad) > 0), "c16_hkdf: %d mismatches %s" % (len(bad), bad[:3])
+
+
+def replay_c16_keygen(args):
+    import hashlib
+    from py_ecc.bls import G2ProofOfPossession as S
+    bad = []
+    for ikm, info in ((b"\x00" * 32, b""), (b"ikm", b"info"), (b"", b""), (bytes(range(128)), bytes(range(64)))):
+        salt = b"BLS-SIG-KEYGEN-SALT-"
+        sk = 0
+        while sk == 0:
+            salt = hashlib.sha256(salt).digest()
+            _, okm = rfc_hkdf(salt, ikm + b"\x00", info + (48).to_bytes(2, "big"), 48)
+            sk = int.from_bytes(okm, "big") % _R
+        got = S.KeyGen(ikm, info)
+        if got != sk or not (1 <= got < _R) or S.KeyGen(ikm, info) != got:
+            bad.append((ikm[:4], got, sk))
+    # the SK == 0 retry cannot be reached with real SHA-256 outputs: force it by making the first HKDF-Expand
+    # of the real KeyGen return zeros (fault injection on the real code) and observe the salts of the attempts
+    import py_ecc.bls.ciphersuites as csm
+    import hmac
+    real_expand, real_extract = csm.hkdf_expand, csm.hkdf_extract
+    salts, n = [], [0]
+
+    def ext(salt, ikm):
+        salts.append(bytes(salt))
+        return real_extract(salt, ikm)
+
+    def exp(prk, info, L):
+        n[0] += 1
+        if n[0] == 1:
+            return b"\x00" * L
+        return real_expand(prk, info, L)
+    csm.hkdf_expand, csm.hkdf_extract = exp, ext
+    try:
+        import threading
+        res = []
+        t = threading.Thread(target=lambda: res.append(S.KeyGen(b"ikm-for-retry", b"")), daemon=True)
+        t.start()
+        t.join(20)
+        if t.is_alive() or not res:
+            bad.append(("KeyGen does not terminate after a zero SK attempt",))
+        else:
+            s1 = hashlib.sha256(b"BLS-SIG-KEYGEN-SALT-").digest()
+            s2 = hashlib.sha256(s1).digest()
+            if salts[:2] != [s1, s2]:
+                bad.append(("salt is not re-hashed before every attempt", [x.hex()[:8] for x in salts[:3]]))
+            _, okm = rfc_hkdf(s2, b"ikm-for-retry\x00", (48).to_bytes(2, "big"), 48)
+            if res[0] != int.from_bytes(okm, "big") % _R:
+                bad.append(("second attempt value",))
+    finally:
+        csm.hkdf_expand, csm.hkdf_extract = real_expand, real_extract
+    return (len(bad) > 0), "c16_keygen: %d mismatches %s" % (len(bad), str(bad[:2])[:200])
